@@ -1162,6 +1162,12 @@ def translate_units(util_src, writer_src, api_src=None, core_src=None):
                 hit = n
         if hit is None or len(hit.body) != 1 or not isinstance(hit.body[0], ast.For) or hit.body[0].orelse:
             raise Unsupported("metadata_from_many: `if verify_schema: for pf in pfs[..]:` not found")
+        # verification happens on the legacy path ONLY: requesting it must select that path, and nothing else may look at the flag
+        uses = [n for n in ast.walk(fd) if isinstance(n, ast.Name) and n.id == "verify_schema" and isinstance(n.ctx, ast.Load)]
+        dispatch = [n for n in ast.walk(fd) if isinstance(n, ast.If) and same_expr(n.test, "verify_schema or fs is None or len(file_list) < 3")]
+        if len(dispatch) != 1 or len(uses) != 2:
+            raise Unsupported("metadata_from_many: verify_schema is expected exactly in the path selection `verify_schema or fs is None or "
+                              "len(file_list) < 3` and in the legacy loop (found %d uses, %d such selections)" % (len(uses), len(dispatch)))
         loop = hit.body[0]
         it = loop.iter
         if not (target_names(loop.target) == "pf" and isinstance(it, ast.Subscript) and same_expr(it.value, "pfs") and isinstance(it.slice, ast.Slice)
